@@ -19,6 +19,18 @@ pub enum Mode {
     Seeded(u64),
 }
 
+thread_local! {
+    static CURRENT_MODE: std::cell::Cell<Option<u64>> = std::cell::Cell::new(None); // None = symbolic, Some(seed) = seeded
+}
+
+/// A variable by name, usable where no `Ctx` is at hand (stub closures registered with the library).
+pub fn fresh(name: &str) -> S {
+    match CURRENT_MODE.with(|m| m.get()) {
+        None => S::var(name),
+        Some(seed) => S::lit(seeded(seed, name, -2.0, 2.0)),
+    }
+}
+
 pub struct Obl {
     pub role: String,
     pub theory: Th,
@@ -47,6 +59,10 @@ pub fn seeded(seed: u64, name: &str, lo: f32, hi: f32) -> f32 {
 
 impl Ctx {
     pub fn new(mode: Mode) -> Ctx {
+        CURRENT_MODE.with(|m| m.set(match mode {
+            Mode::Symbolic => None,
+            Mode::Seeded(k) => Some(k),
+        }));
         Ctx { mode, obls: Vec::new(), assumes: Vec::new(), fp_bound: None, diff_mode: DiffMode::Generic, values: Vec::new() }
     }
     /// differentiate activation atoms in the closed form the library uses (C07 proves the forms equal)
